@@ -240,7 +240,12 @@ def region_for(tx, ref, step, root_live):
         if not kids:
             return None
         # position-less nodes (comprehension, withitem, match_case, arguments, keyword**): span of children, start widened to the introducing keyword by the separator rule
-        return min(k[0] for k in kids), max(k[1] for k in kids), min(k[2] for k in kids), max(k[3] for k in kids)
+        k0, k1, kf, kl = min(k[0] for k in kids), max(k[1] for k in kids), min(k[2] for k in kids), max(k[3] for k in kids)
+        if isinstance(n, ast.match_case):   # a statement-like element: it starts at its `case` keyword (comments between the keyword and the pattern are inside it)
+            kw = [t for t in tx.code if t.string == 'case' and tx.tok_off(t)[0] < k0]
+            if kw:
+                k0, kf = tx.tok_off(kw[-1])[0], kw[-1].start[0]
+        return k0, k1, kf, kl
 
     # lines of the innermost enclosing statement (decorators included): an expression-level edit has no business outside them
     if not is_stmt:
